@@ -178,7 +178,11 @@ def x8(chk, prog, D):
                   "default mode, the value is returned and the reported end position is the value's end")
     ws = {0x20, 0x09, 0x0A, 0x0D}
     n = 0
-    for flags, name in ((F_STRICT, "strict"), (F_STRICT | F_TRAILING, "strict+allow_trailing"), (0, "default")):
+    from ..tokrules import F_UTF8
+    # the decision depends on STRICT and ALLOW_TRAILING_CHARS only: an unrelated flag (UTF-8 validation) must not change it
+    for flags, name in ((F_STRICT, "strict"), (F_STRICT | F_TRAILING, "strict+allow_trailing"), (0, "default"),
+                        (F_STRICT | F_UTF8, "strict+validate_utf8"), (F_STRICT | F_TRAILING | F_UTF8, "strict+allow_trailing+validate_utf8"),
+                        (F_UTF8, "default+validate_utf8")):
         T = tokauto.Table(prog, flags, D)
         st = T.states
         # a complete top-level value followed by more bytes of the same buffer: depth 0, state eatws, saved_state finish
@@ -191,9 +195,12 @@ def x8(chk, prog, D):
                 b = sb % 256
                 if b == 0 or b in ws or (b == 0x2F and not (flags & F_STRICT)):
                     continue
+                if (flags & F_UTF8) and b >= 0x80:
+                    continue          # with UTF-8 validation every input byte is validated, trailing ones included
+
                 cnt += 1
                 err = T.err_name.get(o.err, o.err)
-                if flags == F_STRICT:
+                if flags & (F_STRICT | F_TRAILING) == F_STRICT:
                     good = o.err not in (0, 1) and not o.ret_nonnull
                 else:
                     good = o.err == 0 and o.ret_nonnull and o.consumed == 0
@@ -208,5 +215,5 @@ def x8(chk, prog, D):
                         % (chr(b), name, err, o.ret_nonnull, o.consumed))
         else:
             chk.proven(rid, "json_tokener_parse_ex", sig, "json_tokener.c",
-                       "%d non-whitespace bytes: %s" % (cnt, "fatal error" if flags == F_STRICT else "value returned, end position at the value's end"))
+                       "%d non-whitespace bytes: %s" % (cnt, "fatal error" if flags & (F_STRICT | F_TRAILING) == F_STRICT else "value returned, end position at the value's end"))
     chk.floor(rid, n, 3, "flag combinations")
